@@ -85,7 +85,7 @@ pub fn build_subject() -> Result<PathBuf, String> {
         .args(&args)
         .current_dir(repo())
         .env("CARGO_NET_OFFLINE", "true")
-        .env("RUSTFLAGS", if cov.is_some() { "--cfg seed_verif -C instrument-coverage" } else { "--cfg seed_verif" })
+        .env("RUSTFLAGS", if cov.is_some() { "--cfg seed_verif -C overflow-checks=on -C instrument-coverage" } else { "--cfg seed_verif -C overflow-checks=on" })
         .env("CARGO_TARGET_DIR", &target)
         .env("LLVM_PROFILE_FILE", "/dev/null")
         .output()
